@@ -41,9 +41,10 @@ PROPS = {
 PROBES = {'C10': ['landed_on_requested_time', 'prev_dt_restored', 'two_requested_in_one_step',
                   'requested_equals_step_time', 'requested_equals_tf', 'tf_clip', 'damping_during_landing',
                   'adaptive_none', 'max_steps_stop', 'requested_in_first_step', 'clock_jump_back',
-                  'dt_larger_than_tf', 'adaptive_jump']}
+                  'dt_larger_than_tf', 'adaptive_jump', 'configured_through_setters', 'times_set_before_tf']}
 
 EPS2 = 2 * sys.float_info.epsilon
+SETTER_KEYS = ['tf', 'times', 'dt', 'pfreq', 'n_damp', 'adaptive']
 
 
 def prepare(prop, tier):
@@ -117,11 +118,16 @@ def gen(t, prop, tier):
     tty = t.bool(0.3)
     if tty and t.bool(0.6):
         clock = [t.choice([0.0, 0.01, 1.0, -5.0, 3600.0, -1e6, 1e9]) for _ in range(t.int(1, 5))]
-    return dict(dt=dt, tf=tf, pfreq=pfreq, times=times, dup_class=1 if dup else 0, n_damp=n_damp,
-                adaptive=1 if adaptive else 0, answers=answers, max_steps=max_steps,
-                n_pre=t.choice([0, 0, 1, 2]), n_post=t.choice([0, 0, 1, 2]),
-                cmd_interval=t.choice([0, 0, 1, 3]), tty=1 if tty else 0, clock=clock,
-                dt_as_int=1 if t.bool(0.03) else 0)
+    sc = dict(dt=dt, tf=tf, pfreq=pfreq, times=times, dup_class=1 if dup else 0, n_damp=n_damp,
+              adaptive=1 if adaptive else 0, answers=answers, max_steps=max_steps,
+              n_pre=t.choice([0, 0, 1, 2]), n_post=t.choice([0, 0, 1, 2]),
+              cmd_interval=t.choice([0, 0, 1, 3]), tty=1 if tty else 0, clock=clock,
+              dt_as_int=1 if t.bool(0.03) else 0)
+    # parameters given through the setters (in a drawn order, before solve()) instead of the constructor,
+    # the way Application configures a solver
+    if t.bool(0.3):
+        sc['setters'] = t.shuffle([k for k in SETTER_KEYS if t.bool(0.6)])
+    return sc
 
 
 def describe(sc):
@@ -252,8 +258,32 @@ def execute(sc, prop):
     h.dumps = []
     h.nsteps = 0
     integ = FakeIntegrator(h, answers)
-    solver = SM.Solver(dim=1, integrator=integ, tf=tf, dt=(int(dt0) if sc.get('dt_as_int') and dt0 == int(dt0) else dt0),
-                       adaptive_timestep=adaptive, n_damp=n_damp, pfreq=pfreq, output_at_times=times)
+    setters = sc.get('setters') or []
+    if not isinstance(setters, list) or any(k not in SETTER_KEYS for k in setters) or len(set(setters)) != len(setters):
+        raise InvalidScenario('setters')
+    dt_given = (int(dt0) if sc.get('dt_as_int') and dt0 == int(dt0) else dt0)
+    ctor = dict(tf=tf, dt=dt_given, adaptive_timestep=adaptive, n_damp=n_damp, pfreq=pfreq, output_at_times=times)
+    for k in setters:
+        ctor.pop(dict(times='output_at_times', adaptive='adaptive_timestep').get(k, k))
+    solver = SM.Solver(dim=1, integrator=integ, **ctor)
+    for k in setters:
+        if k == 'tf':
+            solver.set_final_time(tf)
+        elif k == 'times':
+            solver.set_output_at_times(times)
+        elif k == 'dt':
+            solver.set_time_step(dt_given)
+        elif k == 'pfreq':
+            solver.set_print_freq(pfreq)
+        elif k == 'n_damp':
+            solver.set_n_damp(n_damp)
+        else:
+            solver.set_adaptive_timestep(adaptive)
+    if setters:
+        probe_later = ['configured_through_setters'] + (['times_set_before_tf'] if ('tf' in setters and (
+            'times' not in setters or setters.index('times') < setters.index('tf'))) else [])
+    else:
+        probe_later = []
     if max_steps is not None:
         solver.max_steps = max_steps
     solver.particles = [FakePA(h)]
@@ -281,6 +311,8 @@ def execute(sc, prop):
     def violate(inv, detail, **sig):
         if len(viol) < 6:
             viol.append(dict(invariant=inv, detail=detail, sig=sig))
+    for pn in probe_later:
+        probe(pn)
     crashed = None
     try:
         SU.time = clock
